@@ -8,7 +8,8 @@ SNext ==
   \/ Finish
   \/ /\ Len(hist) < MaxD
      /\ \E api \in Apis(Deviations) : \E d \in (IF ApiTable(Deviations)[api].hasDepth THEN 0..3 ELSE {0}) :
-          LET st == Step("StackCall", 1, E, <<api>>, E, E, d, E) IN
+          \E deep \in {E, <<<<"deep">>>>} :     \* also below forty more frames
+          LET st == Step("StackCall", 1, E, <<api>>, deep, E, d, E) IN
           Do(st) /\ hist' = Append(hist, st) /\ nw' = nw /\ fin' = FALSE
 SSpec == GInit /\ [][SNext]_vars
 
